@@ -1,6 +1,5 @@
 package pgmini
 
-
 // resultSet is the internal result of a query.
 type resultSet struct {
 	cols    []string
@@ -122,6 +121,11 @@ func exprName(e Expr) string {
 	case *FieldSel:
 		return x.Field
 	case *Case:
+		// PostgreSQL (FigureColname): a CASE takes the name of its ELSE result when that is a column or function, else "case"
+		switch x.Else.(type) {
+		case *Ident, *FuncCall, *FieldSel:
+			return exprName(x.Else)
+		}
 		return "case"
 	case *Exists:
 		return "exists"
@@ -141,4 +145,3 @@ func exprName(e Expr) string {
 	}
 	return "?column?"
 }
-
